@@ -17,8 +17,10 @@ package config
 //      (differential on the real code; independent of any parser)               [all texts,
 //      environments whose values contain '$']
 //  (3) on WELL-FORMED texts -- every '$' either begins one of the three documented forms
-//      ($NAME maximal identifier, ${NAME}, ${NAME:-default} with NAME an identifier and
-//      the default free of '$', '{', '}') or cannot begin any form (followed by end of
+//      ($NAME maximal identifier, ${NAME}, ${NAME:-default}: the text between the braces up to
+//      the first '}' -- a name that is not an identifier names a variable nobody can set, the
+//      default is taken as written -- provided that inner text cannot itself begin a reference)
+//      or cannot begin any form (followed by end of
 //      text or by a character other than '{', '$' and an identifier start) -- the output
 //      equals the token-by-token expectation: set => value (an empty value is a value),
 //      unset + default => default, unset without default => the reference as written,
@@ -62,6 +64,16 @@ func c37IsIdent(s string) bool {
 	return true
 }
 
+// c37NestedRef reports whether the inner text of a braced reference could itself begin a reference.
+func c37NestedRef(inner string) bool {
+	for i := 0; i+1 < len(inner); i++ {
+		if inner[i] == '$' && (inner[i+1] == '{' || c37IdentStart(inner[i+1])) {
+			return true
+		}
+	}
+	return false
+}
+
 // c37Scan is the independent left-to-right reference. It returns the expected tokens and
 // whether the text is well-formed in the sense of clause (3). For texts that are not
 // well-formed the tokens mirror the regular expression's reading (any non-empty run of
@@ -88,7 +100,11 @@ func c37Scan(s string, env map[string]string) (toks []c37Tok, wellFormed bool) {
 				lit(start, i)
 				if k := strings.Index(content, ":-"); k >= 0 {
 					name, def := content[:k], content[k+2:]
-					if !c37IsIdent(name) || strings.ContainsAny(def, "${}") {
+					// The default is "taken as written" up to the closing brace; a name that is not an
+					// identifier names a variable that cannot be set. The token stays in the judged class
+					// unless its inner text could itself START a reference ('$' followed by '{' or an
+					// identifier start), where the statement does not say which reading wins.
+					if c37NestedRef(content) {
 						wellFormed = false
 					}
 					if v, ok := env[name]; ok {
@@ -97,7 +113,7 @@ func c37Scan(s string, env map[string]string) (toks []c37Tok, wellFormed bool) {
 						toks = append(toks, c37Tok{"default-unset", src, def})
 					}
 				} else {
-					if !c37IsIdent(content) {
+					if c37NestedRef(content) {
 						wellFormed = false
 					}
 					if v, ok := env[content]; ok {
@@ -347,8 +363,8 @@ outer:
 	// character grid reaches: prefix x form x suffix and form x form, names {A,b,Ab,_,A1},
 	// defaults {"", b, -, :, " ", 1, A, "x y"}.
 	if r.Shard == 0 {
-		names := []string{"A", "b", "Ab", "_", "A1"}
-		defaults := []string{"", "b", "-", ":", " ", "1", "A", "x y"}
+		names := []string{"A", "b", "Ab", "_", "A1", "{A", "A{", "-A", "A b"}
+		defaults := []string{"", "b", "-", ":", " ", "1", "A", "x y", "{", "US$", "{b", "b{", "$", "a$", "{{"}
 		var forms []string
 		for _, n := range names {
 			forms = append(forms, "$"+n, "${"+n+"}")
